@@ -44,6 +44,14 @@ def frame(rng):
     return hx([rng.randrange(256) for _ in range(n)])
 
 def gen_one(rng, nops, sched):
+    # half of the histories draw frames/priorities from a tiny palette so that a sender repeats an
+    # identical frame (before/after other senders' updates) as real streaming clients do
+    palette = [frame(rng) for _ in range(rng.choice([2, 2, 3]))] if rng.random() < 0.5 else None
+    ppal = [rng.choice([100, 100, 150, 200, 0]) for _ in range(2)]
+    def fr():
+        return rng.choice(palette) if palette and rng.random() < 0.85 else frame(rng)
+    def apr():
+        return rng.choice(ppal) if palette and rng.random() < 0.85 else rng.choice(API_PRIOS)
     ncl = rng.choice([2, 3, 3, 4])
     ops = []
     elapsed = 0
@@ -62,9 +70,9 @@ def gen_one(rng, nops, sched):
         if r < 0.30:
             kind = rng.choice(['S', 'S', 'T', 'RS', 'RT'])
             if kind in ('S', 'T'):
-                ops.append('%s,%d,%d,%d,%s' % (kind, c, uni(), rng.choice(API_PRIOS), frame(rng)))
+                ops.append('%s,%d,%d,%d,%s' % (kind, c, uni(), apr(), fr()))
             else:
-                ops.append('%s,%d,%d,%s,%s' % (kind, c, uni(), rng.choice(RAW_PRIOS), frame(rng)))
+                ops.append('%s,%d,%d,%s,%s' % (kind, c, uni(), rng.choice(RAW_PRIOS), fr()))
         elif r < 0.38:
             ops.append('F,%d,%d' % (c, uni()))
         elif r < 0.47:
@@ -97,12 +105,56 @@ def gen_one(rng, nops, sched):
     ops.append('*')
     return '%d %s' % (ncl, ' '.join(ops))
 
+def gen_repeat(rng):
+    """A repeats an identical frame (acked S or streamed T) around another sender's update, in LTP
+    and HTP, optionally while a higher-priority sender goes quiet across the 2.5 s source timeout."""
+    ncl = 3
+    u = rng.choice([1, 1, 2])
+    ops = ['G,2,%d,1' % u, '*']
+    if rng.random() < 0.6:
+        ops += ['M,%d,%d,%d' % (rng.randrange(3), u, rng.choice([0, 1])), '*']
+    x = hx([rng.randrange(256) for _ in range(rng.choice([1, 2, 3, 4]))])
+    y = hx([rng.randrange(256) for _ in range(rng.choice([1, 2, 3, 4]))])
+    ka = rng.choice(['T', 'T', 'S', 'RT'])
+    pa = rng.choice([100, 100, 0, 99, 200])
+    sched = rng.random() < 0.4
+    def dr():
+        return ['>,0', '>,1', '<,2', '<,0', '<,1', '*'] if sched and rng.random() < 0.5 else ['*']
+    def a_send():
+        return ['%s,0,%d,%d,%s' % (ka, u, pa, x)]
+    timeout_variant = rng.random() < 0.5
+    pb = rng.choice([pa, pa, min(200, pa + 50), 150 if pa < 150 else pa]) if not timeout_variant \
+        else rng.choice([min(200, pa + 50), 200 if pa < 200 else pa, pa])
+    kb = rng.choice(['S', 'T'])
+    ops += a_send() + dr()
+    if rng.random() < 0.3:
+        ops += ['K,%d' % rng.choice([0, 1, 1000])]
+    ops += ['%s,1,%d,%d,%s' % (kb, u, pb, y)] + dr()
+    elapsed = 0
+    if timeout_variant:
+        # A keeps repeating its unchanged frame while B stays quiet across the timeout boundary
+        steps = rng.choice([[1000000, 1000000, 499999], [1000000, 1000000, 500000], [1000000, 1000000, 500001],
+                            [1250000, 1250000], [2000000, 1200000], [900000, 900000, 900000]])
+        for dt in steps:
+            elapsed += dt
+            ops += ['K,%d' % dt] + a_send() + dr()
+    else:
+        if rng.random() < 0.5:
+            ops += ['K,%d' % rng.choice([1, 1000, 100000])]
+        ops += a_send() + dr()
+    ops += ['F,%d,%d' % (rng.randrange(3), u), '*']
+    if rng.random() < 0.5:
+        ops += a_send() + dr() + ['F,2,%d' % u, '*']
+    return '%d %s' % (ncl, ' '.join(ops))
+
 def gen_cases(rng, tier):
     n = 900 if tier == 'quick' else 30000
     for i in range(n):
         sched = (i % 3) != 0
         nops = rng.choice([6, 10, 16, 24, 36])
         yield gen_one(rng, nops, sched)
+    for i in range(n // 4):
+        yield gen_repeat(rng)
 
 def nontrivial(payload, md):
     obs = md.get('obs', '')
@@ -111,7 +163,7 @@ def nontrivial(payload, md):
 RULE = ('histories of 6-36 client-library calls by 2-4 real OlaClient instances against one real OlaServer '
         '(acked/streamed/raw-protobuf sends with frame sizes {0,1,2,3,4,512,513,600} and priorities '
         '{0,1,99,100,101,199,200,201,255 | absent,256,300,456,511,2^31-1}, fetch, register/unregister, merge mode, '
-        'name, info, patch, disconnects anywhere, clock ticks {0,1,1000,2499999,2500000,2500001 us}, housekeeping); '
+        'name, info, patch, disconnects anywhere, half of the histories drawing frames/priorities from a 2-3 entry palette so senders repeat identical frames, plus dedicated repeat-identical-frame histories (acked and streamed, LTP/HTP, with a higher-priority sender going quiet across the 2.5 s source timeout), clock ticks {0,1,1000,2499999,2500000,2500001 us}, housekeeping); '
         '1/3 drained after every call, 2/3 with an explicit random schedule of per-channel deliveries; compared after '
         'every step; non-trivial = at least one successful completion and one DMX push delivered to a registered '
         'client; distinct = distinct model output line')
